@@ -621,16 +621,45 @@ func (n *normalizer) leftmost(e ast.Expr) (*ast.CallExpr, *types.Func) {
 			}
 			// a method call on the result of a helper call: h(..).M(..) evaluates h first
 			if sel, ok := x.Fun.(*ast.SelectorExpr); ok {
-				if _, isPkg := n.pkg.TypesInfo.Uses[identOf(sel.X)].(*types.PkgName); !isPkg {
+				if _, isPkg := n.pkg.TypesInfo.Uses[identOf(sel.X)].(*types.PkgName); !isPkg && !pureOperand(sel.X) {
 					e = sel.X
 					continue
 				}
 			}
-			return nil, nil
+			// f(a, b, h(..), ..) with f and the arguments before h plain names or literals: h is the first operand
+			// whose evaluation can do anything (up to the position of a nil-dereference panic, which no rule observes)
+			if !pureOperand(x.Fun) {
+				return nil, nil
+			}
+			var next ast.Expr
+			for _, a := range x.Args {
+				if pureOperand(a) {
+					continue
+				}
+				next = a
+				break
+			}
+			if next == nil {
+				return nil, nil
+			}
+			e = next
 		default:
 			return nil, nil
 		}
 	}
+}
+
+// pureOperand: evaluating e does nothing but read variables (names, literals, field/method selections of names).
+func pureOperand(e ast.Expr) bool {
+	switch x := e.(type) {
+	case *ast.Ident, *ast.BasicLit:
+		return true
+	case *ast.ParenExpr:
+		return pureOperand(x.X)
+	case *ast.SelectorExpr:
+		return pureOperand(x.X)
+	}
+	return false
 }
 
 func identOf(e ast.Expr) *ast.Ident {
